@@ -547,6 +547,12 @@ class Elab:
                     return Const(r if op == "==" else not r)
         if op in ("==", "!=", "<=", ">=", "<", ">", "is", "isnot") and isinstance(a, (Sym, Op)) and isinstance(b, (Sym, Op)) and a == b:
             return Const(op in ("==", "<=", ">=", "is"))
+        if op == "&":
+            for x, y in ((a, b), (b, a)):
+                if isinstance(x, Const) and (x.v is False or (isinstance(x.v, int) and not isinstance(x.v, bool) and x.v == 0)) and not isinstance(y, (ListV, DictV)):
+                    return Const(0)
+                if isinstance(x, Const) and x.v is True and not isinstance(y, (ListV, DictV, Const)):
+                    return y
         # light algebraic identities that keep terms small
         if op in ("|", "+") and isinstance(a, Const) and a.v == 0 and not isinstance(a.v, bool):
             return b
